@@ -15,7 +15,13 @@ MODE = {"det": "deterministic-rfc6979", "fips": "fips-186-3"}
 CURVES = ("p192", "p224", "p256", "p384", "p521")
 DSA_FIXT = (("dsa1024_160", 1024, 160), ("dsa2048_224", 2048, 224), ("dsa3072_256", 3072, 256))
 
+# thorough tier only (observations, never judged): DSA domains outside the four FIPS 186-4 (L, N) pairs.  DSS.new documents the
+# four pairs as a precondition but enforces them in mode 'fips-186-3' only; N = 159..168 walks through every N mod 8
+NONFIPS_LN = ((1024, 159), (1024, 161), (1024, 162), (1024, 163), (1024, 164), (1024, 165), (1024, 166), (1024, 167), (1024, 168),
+              (512, 160))
+
 _KEYS = None
+_THOROUGH_KEYS = False
 _LIB = {}
 _REFQ = {}
 _VCACHE = {}
@@ -46,9 +52,9 @@ def gen_dsa_domain(L, N, label):
     return p, q, pow(h, (p - 1) // q, p)
 
 
-def build_keys(acc):
-    global _KEYS
-    if _KEYS is not None:
+def build_keys(acc, thorough=False):
+    global _KEYS, _THOROUGH_KEYS
+    if _KEYS is not None and (_THOROUGH_KEYS or not thorough):
         return _KEYS
     from ..keys import dsa_components
     ks = {}
@@ -85,11 +91,36 @@ def build_keys(acc):
                 ks[name] = {"kind": "ec", "name": name, "curve": kd["curve"], "d": val, "boundary": True, "pubxy": True}
         for tag, val, partner in pairs:
             ks["%s/x=%s/2" % (base, tag)] = ks["%s/x=%s" % (base, partner)]
+        if thorough:
+            # more scalars next to the shortcuts of the scalar multiplication: 3, only the top bit, the two halves of the
+            # order, and their negatives (each one's "other key" is the key with the negated public point)
+            n1 = 1 << (q.bit_length() - 1)
+            pairs = (("3", 3, "q-3"), ("q-3", q - 3, "3"), ("2^(n-1)", n1, "q-2^(n-1)"), ("q-2^(n-1)", q - n1, "2^(n-1)"),
+                     ("(q-1)/2", (q - 1) // 2, "(q+1)/2"), ("(q+1)/2", (q + 1) // 2, "(q-1)/2"))
+            for tag, val, partner in pairs:
+                name = "%s/x=%s" % (base, tag)
+                if kd["kind"] == "dsa":
+                    ks[name] = dict(kd, name=name, x=val, y=pow(kd["g"], val, kd["p"]), boundary=True)
+                else:
+                    ks[name] = {"kind": "ec", "name": name, "curve": kd["curve"], "d": val, "boundary": True, "pubxy": True}
+            for tag, val, partner in pairs:
+                ks["%s/x=%s/2" % (base, tag)] = ks["%s/x=%s" % (base, partner)]
+    if thorough:
+        for L, N in NONFIPS_LN:
+            name = "dsaX%d_%d" % (L, N)
+            p, q, g = gen_dsa_domain(L, N, "dsa-nonfips-%d-%d" % (L, N))
+            x = 1 + _fixed_int("dsa-nonfips-x-%d-%d" % (L, N), N + 64) % (q - 1)
+            ks[name] = {"kind": "dsa", "name": name, "p": p, "q": q, "g": g, "x": x, "y": pow(g, x, p), "nonfips": True}
+            bad = RD.dsa_check_key(p, q, g, ks[name]["y"], x, fips_sizes=False)
+            if bad or q.bit_length() != N or p.bit_length() != L:
+                acc.error("non-FIPS DSA domain %s fails the reference check: %s" % (name, bad))
     _KEYS = ks
+    _THOROUGH_KEYS = bool(thorough)
     return ks
 
 
 BOUNDARY = ("1", "2", "q-2", "q-1")
+BOUNDARY_T = ("3", "q-3", "2^(n-1)", "q-2^(n-1)", "(q-1)/2", "(q+1)/2")      # thorough tier, in addition
 
 
 def keymat(kd):
@@ -512,6 +543,40 @@ def dss_candidates(kd, enc, r, s, flips=None):
                 yield "bit-flip", B.flip(sig, bit)
 
 
+def sweep_positions(kd, enc, r, s):
+    """(name, offset) of the octets of the authentic signature that get every one of the 255 other values (thorough tier):
+    DER: every tag and length octet and the first / last content octet of both INTEGERs; binary: first / last octet of r, s"""
+    ob = obytes(kd)
+    if enc == "binary":
+        return [("r-first", 0), ("r-last", ob - 1), ("s-first", ob), ("s-last", 2 * ob - 1)]
+    rc, sc = _ic(r), _ic(s)
+    body = len(_tlv(2, rc)) + len(_tlv(2, sc))
+    out = [("seq-tag", 0), ("seq-len", 1)]
+    pos = 2
+    if body >= 128:
+        out.append(("seq-len-2", 2))
+        pos = 3
+    for nm, c in (("r", rc), ("s", sc)):
+        out += [(nm + "-tag", pos), (nm + "-len", pos + 1), (nm + "-first", pos + 2), (nm + "-last", pos + 1 + len(c))]
+        pos += 2 + len(c)
+    return out
+
+
+def dss_octet_sweep(kd, enc, r, s, which=None):
+    """(tag, candidate): the authentic signature with ONE octet replaced, every position of sweep_positions() x every value"""
+    sig = encode_sig(kd, enc, r, s)
+    for name, off in sweep_positions(kd, enc, r, s):
+        if which is not None and name != which:
+            continue
+        for v in range(256):
+            if v != sig[off]:
+                yield "octet/%s@%02x" % (name, v), sig[:off] + bytes([v]) + sig[off + 1:]
+
+
+SWEEP_NAMES = {"binary": ("r-first", "r-last", "s-first", "s-last"),
+               "der": ("seq-tag", "seq-len", "r-tag", "r-len", "r-first", "r-last", "s-tag", "s-len", "s-first", "s-last")}
+
+
 def fips_tapes(q, sweep):
     """(tag, tape) ; every tape ends with two more valid draws"""
     bits = (q - 2).bit_length()
@@ -522,7 +587,7 @@ def fips_tapes(q, sweep):
     def e(c):
         return c.to_bytes(nb, "big")
     pad = e(mid) + e(mid ^ 5)
-    if not sweep:
+    if sweep in (False, "ext"):
         for tag, c in (("k=1", 0), ("k=2", 1), ("k=q-2", q - 3), ("k=q-1", q - 2), ("k=mid", mid)):
             yield tag, e(c) + pad
         top = (1 << bits) - 1
@@ -534,6 +599,22 @@ def fips_tapes(q, sweep):
             hi = (0xFF << sig) & 0xFF
             yield "junk above the top bits", bytes([e(mid)[0] | hi]) + e(mid)[1:] + pad
             yield "junk above the top bits, q-2", bytes([e(q - 2)[0] | hi]) + e(q - 2)[1:] + pad
+        if sweep == "ext":
+            # thorough tier: more accepted draws next to both ends, only the top / only the bottom bit, longer runs of
+            # rejected draws, rejected draws followed by a boundary draw
+            for tag, c in (("k=3", 2), ("k=4", 3), ("k=q-3", q - 4), ("k=q-4", q - 5), ("k=2^(bits-1)", (1 << (bits - 1)) - 1),
+                           ("k=2^(bits-1)+1", 1 << (bits - 1)), ("k=256", 255), ("k=257", 256)):
+                if 0 <= c <= q - 2:
+                    yield tag, e(c) + pad
+            for tag, c in (("draw q+1 rejected", q + 1), ("draw 2^bits-2 rejected", top - 1)):
+                if q - 2 < c <= top:
+                    yield tag, e(c) + pad
+            yield "three draws rejected", e(q - 1) + e(top) + e(q - 1) + pad
+            yield "four draws rejected", e(top) + e(q - 1) + e(top) + e(q - 1) + pad
+            yield "eight draws rejected", (e(q - 1) + e(top)) * 4 + pad
+            yield "draw rejected, then k=1", e(q - 1) + e(0) + pad
+            yield "draw rejected, then k=q-1", e(top) + e(q - 2) + pad
+            yield "two draws rejected, then k=2", e(q - 1) + e(q - 1) + e(1) + pad
     else:
         for b in range(256):
             yield "first octet %02x" % b, bytes([b]) + e(mid)[1:] + pad
@@ -569,7 +650,7 @@ def worker(shards):
                     acc.seen("classes", (algo(kd), kd["name"], mode, enc, "hash-not-approved", hn))
                     continue
                 for mn in mnames:
-                    msg = msgs[mn]
+                    msg = B.message(mn, msgs)
                     tape = dict(fips_tapes(q, False))["k=mid"] if mode == "fips" else None
                     r0 = dss_sign_case(kd, mode, enc, hn, msg, tape, acc)
                     acc.seen("sign_cfgs", (kd["name"], mode, enc, hn))
@@ -588,7 +669,8 @@ def worker(shards):
         elif kind == "cand":
             # ("cand", key, mode, enc, hash, message, flips | None)
             _, _, mode, enc, hn, mn, flips = sh
-            msg = msgs[mn]
+            msg = B.message(mn, msgs)
+            acc.seen("cand_cfgs", (kd["name"], mode, enc, hn, mn, bool(flips)))
             # the authentic signature is the library's own RFC 6979 output (compared with the reference on the way)
             r0 = dss_sign_case(kd, "det", enc, hn, msg, None, acc)
             if r0 is None:
@@ -611,15 +693,91 @@ def worker(shards):
                 acc.count("tapes")
                 n += 1
                 k, used, draws = model_k(q, tape)
-                acc.seen("classes", (algo(kd), kd["name"], "tape", enc, "sweep" if sweep else tag, draws,
+                acc.seen("classes", (algo(kd), kd["name"], "tape", enc, "sweep" if sweep is True else tag, draws,
                                      "k=1" if k == 1 else "k=q-1" if k == q - 1 else "k", r0 is not None))
-                if r0 is not None and not sweep:
+                if r0 is not None and sweep is not True:
                     _tally(acc, kd, "fips", enc, "authentic", *dss_verify_case(kd, "fips", enc, hn, msg, r0[0], "authentic", acc, demand=True))
             last = {"part": "dss-fips-tapes", "key": kd["name"], "encoding": enc, "hash": hn, "tapes": n,
-                    "first_octet_sweep": bool(sweep)}
+                    "first_octet_sweep": sweep is True}
+        elif kind == "sweep":
+            # ("sweep", key, enc, hash, message, position names): one octet of the RFC 6979 signature takes every value
+            _, _, enc, hn, mn, which = sh
+            msg = B.message(mn, msgs)
+            r0 = dss_sign_case(kd, "det", enc, hn, msg, None, acc)
+            if r0 is None:
+                continue
+            _, r, s = r0
+            n = 0
+            for name in which:
+                for tag, cand in dss_octet_sweep(kd, enc, r, s, name):
+                    _tally(acc, kd, "det", enc, tag, *dss_verify_case(kd, "det", enc, hn, msg, cand, tag, acc))
+                    n += 1
+                    acc.count("octet_sweep_cases")
+                acc.seen("sweep_cfgs", (kd["name"], enc, hn, name))
+            last = {"part": "dss-octet-sweep", "key": kd["name"], "encoding": enc, "hash": hn, "message": mn,
+                    "positions": list(which), "candidates": n}
+        elif kind == "nonfips":
+            # ("nonfips", key, enc, hashes, message): DSA domains outside the FIPS (L, N) list -- observations only
+            _, _, enc, hashes, mn = sh
+            for hn in hashes:
+                nonfips_case(kd, enc, hn, B.message(mn, msgs), acc)
+            last = {"part": "dss-nonfips-domain (observed, not judged)", "key": kd["name"], "encoding": enc, "hashes": list(hashes)}
     if last:
         acc.sample(last)
     return acc
+
+
+def nonfips_case(kd, enc, hn, msg, acc):
+    """A DSA domain whose (L, N) is not one of the four FIPS 186-4 pairs.  DSS.new documents the four pairs as a precondition
+    (and enforces them in mode 'fips-186-3'), so nothing is judged here: what mode 'deterministic-rfc6979' does is recorded."""
+    from Crypto.Signature import DSS
+    L, N = kd["p"].bit_length(), kd["q"].bit_length()
+    q, ob = kd["q"], obytes(kd)
+    digest = B.ref_digest(hn, msg)
+    acc.count("nonfips_cases")
+
+    def seen(outcome):
+        acc.seen("nonfips", ("L=%d" % L, "N=%d" % N, hn, enc, outcome))
+    out = B.lib_outcome(DSS.new, libkey(kd), MODE["fips"], enc)
+    if out[0] == "accept":
+        acc.observe("DSS.new(mode='fips-186-3') accepts a DSA key with (L, N) = (%d, %d)" % (L, N))
+    out = B.lib_outcome(DSS.new, libkey(kd), MODE["det"], enc)
+    if out[0] != "accept":
+        seen("refused by DSS.new: " + out[0])
+        return
+    o1 = B.lib_outcome(out[1].sign, B.libhash(hn, msg))
+    if o1[0] != "accept":
+        seen("refused by sign(): " + o1[0])
+        return
+    sig = o1[1]
+    k, r, s = ref_det(kd, digest, B.HASHES[hn][4])
+    o2 = B.lib_outcome(DSS.new(libkey(kd, False), MODE["det"], enc).verify, B.libhash(hn, msg), sig)
+    if sig == encode_sig(kd, enc, r, s):
+        seen("signature equals RFC 6979, verify(sign): " + o2[0])
+        return
+    # explain the difference: z taken as the first ceil(N/8) OCTETS of the digest instead of its leftmost N BITS?
+    try:
+        if enc == "binary":
+            lr, ls = int.from_bytes(sig[:ob], "big"), int.from_bytes(sig[ob:], "big")
+        else:
+            lr, ls = D.read_ecdsa_sig(sig)
+        zo = int.from_bytes(digest[:ob], "big")
+        w = nt.inverse(ls, q)
+        octets = 0 < lr < q and 0 < ls < q and pow(kd["g"], zo * w % q, kd["p"]) * pow(kd["y"], lr * w % q, kd["p"]) % kd["p"] % q == lr
+    except (ValueError, ZeroDivisionError):
+        octets = False
+    o3 = B.lib_outcome(DSS.new(libkey(kd, False), MODE["det"], enc).verify, B.libhash(hn, msg), encode_sig(kd, enc, r, s))
+    seen("signature differs from RFC 6979 (%s), verify(sign): %s, verify(RFC 6979 signature): %s"
+         % ("z = first ceil(N/8) octets of the digest" if octets else "unexplained", o2[0], o3[0]))
+    if octets:
+        acc.observe("not judged (DSS.new documents the four FIPS (L, N) pairs as a precondition but mode 'deterministic-rfc6979' "
+                    "does not enforce it): for a DSA q whose bit length N is not a multiple of 8 and a digest longer than N bits, "
+                    "sign()/verify() use the first ceil(N/8) octets of the digest where FIPS 186-4 4.6 / RFC 6979 2.3.2 take the "
+                    "leftmost N bits; the signature differs from RFC 6979 and the RFC 6979 signature is refused "
+                    "(smallest example: L=1024, N=159, SHA-1)")
+    else:
+        acc.observe("not judged: deterministic-rfc6979 signature under a non-FIPS DSA domain (L=%d, N=%d, %s) differs from "
+                    "RFC 6979 and is not explained by octet-wise truncation of the digest" % (L, N, hn))
 
 
 def replay(case, acc):
